@@ -17,7 +17,7 @@ sys.path.insert(0, str(Path(__file__).resolve().parent.parent))
 from mc import common
 
 R = common.bootstrap()
-from mc import hist as H, world as W  # noqa: E402
+from mc import dsched, explore, hist as H, world as W  # noqa: E402
 
 PID = 'C18'
 CLIENTS = {'A': ('A', 'cA'), 'A2': ('A', 'cA2'), 'B': ('B', 'cB'), 'C': ('C', 'cC')}   # client -> (user, private cache id)
@@ -98,8 +98,17 @@ def run_cmd(state, client, cmd, arg, fsdirs, cache_files):
     return obs, dict(store.o), after_cache
 
 
+def norm_stdout(text):
+    """Rows of snapshots whose details are hidden (other key holder) carry no timestamp, so their relative order
+    is not specified (it follows the order in which the loader threads finish): compare them as a multiset."""
+    lines = text.splitlines()
+    visible = [ln for ln in lines if '\t--' not in ln]
+    hidden = sorted(ln for ln in lines if '\t--' in ln)
+    return visible, hidden
+
+
 def same(o1, o2):
-    return (o1['exc'], o1['stdout'], o1['ret'], o1['tree']) == (o2['exc'], o2['stdout'], o2['ret'], o2['tree'])
+    return (o1['exc'], norm_stdout(o1['stdout']), o1['ret'], o1['tree']) == (o2['exc'], norm_stdout(o2['stdout']), o2['ret'], o2['tree'])
 
 
 def events(state):
@@ -222,7 +231,147 @@ def bfs(s0, mode, depth, full_at=None):
     return {'mode': mode, 'states': len(seen) + 1, 'transitions': transitions, 'command_runs': runs, 'sample': sample}, viol, frontier
 
 
+# ---------------------------------------------------------------- two clients at the same time on one cold cache directory
+_CPRE = {}
+
+
+def conc_pre():
+    if os.getpid() not in _CPRE:
+        fsdirs = H.materialize()
+        s0 = H.make_initial('enc')
+        s1 = H.apply(s0, ('snap', 'A', 'F1'), fsdirs).state
+        s2 = H.apply(s1, ('snap', 'B', 'F2'), fsdirs).state
+        _CPRE[os.getpid()] = s2
+    return _CPRE[os.getpid()]
+
+
+@explore.register
+def run_concurrent(params, prefix):
+    """Two clients run listing/restore commands concurrently with one shared, initially empty cache directory.
+    Every file operation on the cache (create-truncate, each half of the write, read, rename, unlink) is a scheduling
+    point. Both must behave exactly as without a cache."""
+    st = conc_pre()
+    fsdirs = H.materialize()
+    sc = H.worker_scratch()
+    cdir = sc.sub()
+    targets = [sc.sub(), sc.sub()]
+    BasePath = type(Path())
+    cprefix = str(cdir)
+
+    def pt(label):
+        s_ = dsched.cur()
+        if s_ is not None and not s_.teardown:
+            s_.point('cache:' + label)
+
+    class KPath(BasePath):
+        def _mine(self):
+            return str(self).startswith(cprefix)
+
+        def write_bytes(self, data):
+            if not self._mine():
+                return super().write_bytes(data)
+            pt('open-truncate')
+            with BasePath.open(self, 'wb') as f:
+                pt('write-1')
+                half = len(data) // 2
+                f.write(data[:half])
+                f.flush()
+                pt('write-2')
+                f.write(data[half:])
+                f.flush()
+                pt('close')
+            return len(data)
+
+        def read_bytes(self):
+            if self._mine():
+                pt('read')
+            return super().read_bytes()
+
+        def replace(self, target):
+            if self._mine():
+                pt('rename')
+            return super().replace(target)
+
+        def unlink(self, *a, **k):
+            if self._mine():
+                pt('unlink')
+            return super().unlink(*a, **k)
+
+        def mkdir(self, *a, **k):
+            if self._mine():
+                pt('mkdir')
+            return super().mkdir(*a, **k)
+
+    saved = R.Path
+    R.Path = KPath
+    store = W.Store(st.o)
+    W.set_random('c18-conc')
+    W.set_clock()
+    outs = {}
+
+    async def one(i, uname, cmd, cache):
+        repo = await W.a_open(store, H.user_obj(st, uname), N=2, cache=cache)
+        import io
+        import contextlib
+        buf = io.StringIO()
+        try:
+            # stdout is shared between the two concurrent commands: collect through the repository's print target
+            if cmd == 'ls':
+                await repo.list_snapshots()
+            elif cmd == 'lf':
+                await repo.list_files()
+            else:
+                r = await repo.restore(path=targets[i])
+                outs[i] = sorted(r.files)
+        finally:
+            await repo.close()
+
+    async def go(cache):
+        import asyncio
+        with W.captured():
+            res = await asyncio.gather(one(0, params['u0'], params['c0'], cache), one(1, params['u1'], params['c1'], cache),
+                                       return_exceptions=True)
+        return res
+
+    try:
+        x = dsched.run_one(lambda loop, s_: go(cdir), prefix, horizon=8000)
+    finally:
+        R.Path = saved
+    import shutil
+    trees = [{p[len(str(t)):]: v[0] for p, v in W.read_tree(t).items()} for t in targets]
+    leftovers = [f for d, _, fs in os.walk(cdir) for f in fs if f.endswith('.tmp')]
+    for t in targets + [cdir]:
+        shutil.rmtree(t, ignore_errors=True)
+    out = {'points': x.points, 'err': None, 'viol': [], 'order': hash(tuple(p[1] for p in x.points))}
+    sig0 = {'part': 'concurrent-clients', 'c0': params['c0'], 'c1': params['c1']}
+    if x.err is not None or x.exc is not None:
+        out['err'] = None if x.err is None else ('hang' if isinstance(x.err, dsched.Hang) else 'capped' if isinstance(x.err, dsched.Horizon) else 'diverged')
+        out['errmsg'] = repr(x.err or x.exc)[:200]
+        if out['err'] in (None, 'hang'):
+            out['viol'].append((dict(sig0, what='run-failed'), {'params': params, 'err': out['errmsg']}))
+        out['outcome'] = out['obs'] = ('ERR', out['errmsg'][:50])
+        return out
+    bad = [(i, r) for i, r in enumerate(x.result) if isinstance(r, BaseException)]
+    for i, r in bad[:1]:
+        out['viol'].append((dict(sig0, what='differs-from-cache-disabled', exc=type(r).__name__),
+                            {'params': params, 'client': i, 'err': repr(r)[:160]}))
+    # restore results must be what the cache-less run gives: the client's own newest files
+    for i, (u, c) in enumerate(((params['u0'], params['c0']), (params['u1'], params['c1']))):
+        if c == 'restore' and not bad:
+            want = {}
+            for e in sorted((e for e in st.ledger if e['owner'] == u), key=lambda e: e['seq']):
+                want.update(H.expected_files(e, fsdirs))
+            if trees[i] != want:
+                out['viol'].append((dict(sig0, what='restore-differs-from-cache-disabled'), {'params': params, 'client': i}))
+    out['outcome'] = ('OK' if not out['viol'] else 'BAD', len(bad))
+    out['obs'] = (out['outcome'], tuple(p[1] for p in x.points))
+    return out
+
+
 def replay(case):
+    if 'params' in case:
+        r = run_concurrent(case['params'], case.get('choices', []))
+        return {'violations': [v[0] for v in r['viol']], 'outcome': r['outcome']}
     fsdirs = H.materialize()
     MODE[0] = case.get('mode', 'shared')
     s = H.make_initial('enc')
@@ -273,7 +422,23 @@ def main():
                 transitions += 1
                 for sig, d in vs:
                     chk.violation(sig, d)
+        totc = explore.Agg()
+        for c0, c1 in (('ls', 'ls'), ('ls', 'restore'), ('lf', 'ls'), ('restore', 'restore')):
+            for u0, u1 in (('A', 'A'), ('A', 'B')):
+                params = {'c0': c0, 'c1': c1, 'u0': u0, 'u1': u1}
+                agg, info = explore.explore(run_concurrent, params, 1 if t == 'quick' else 2)
+                if not info['deterministic_replay']:
+                    chk.harness_error(f'replay of {params} not deterministic')
+                for sig, d in agg.viol:
+                    chk.violation(sig, d)
+                for kk, v in agg.errs.items():
+                    if kk in ('capped', 'diverged'):
+                        chk.harness_error(f'{kk} in {params}: {v[2]}')
+                totc.merge(agg)
+        runs += totc.executions
+        chk.sample({'part': 'concurrent-clients', 'commands': ['ls', 'restore'], 'users': ['A', 'B'], 'deviations': 1})
         chk.coverage.update({
+            'concurrent_executions': totc.executions, 'concurrent_interleavings': len(totc.orders),
             'states': states, 'transitions': transitions, 'traces_validated_against_impl': runs,
             'evaluations': runs, 'distinct_nontrivial': states,
             'rule': 'BFS over command histories of 4 clients with shared / private cache directories; every transition run with '
